@@ -180,21 +180,28 @@ let run_tx (c : cur) (impl : string list) : string * string =
       let s = pscript () in let d = opt_datum () in let inp = txin_tok c in (s, d, inp))) else [] in
   let pw = if more () && c.a.(c.pos) = "PW" then (ignore (next c); rep (count c) (fun () -> let s = pscript () in let d = opt_datum () in (s, d))) else [] in
   let pc = if more () && c.a.(c.pos) = "PC" then (ignore (next c); rep (count c) (fun () -> let s = pscript () in let d = opt_datum () in let _k = next c in (s, d))) else [] in
+  let nw = if more () && c.a.(c.pos) = "NW" then (ignore (next c); rep (count c) (fun () -> bytes_tok c)) else [] in
+  let nc = if more () && c.a.(c.pos) = "NC" then (ignore (next c); rep (count c) (fun () -> let sb = bytes_tok c in let _k = next c in sb)) else [] in
   (* derived lists (plain regrouping of tokens): script-source reference inputs and witness scripts *)
-  let ref_of (src, rh, ri) = if src = "r" then [ (bytes_of_hex rh, n_of_string ri) ] else [] in
+  let ref_of (src, rh, ri) = if src = "r" || (String.length src = 2 && src.[0] = 'q') then [ (bytes_of_hex rh, n_of_string ri) ] else [] in
   let mint_live = match mint_raw with None -> [] | Some raw -> List.filter (fun (_, _, _, _, _, _, _, a) -> a <> Z0) raw in
   let script_refs = List.concat (List.map (fun (_, src, _, rh, ri) -> ref_of (src, rh, ri)) si)
                     @ List.concat (List.map (fun (_, _, _, src, rh, ri, _, _) -> ref_of (src, rh, ri)) mint_live) in
-  let native = List.concat (List.map (fun (sb, src, _, _, _) -> if src = "w" then [sb] else []) si)
-               @ List.concat (List.map (fun (_, sb, _, src, _, _, _, _) -> if src = "w" then [sb] else []) mint_live) in
+  let mint_ops = match mint_raw with
+    | None -> None
+    | Some raw -> Some (List.map (fun (k, _, p, _, _, _, nm, a) -> if k = "a" then MbAdd (p, nm, a) else MbSet (p, nm, a)) raw) in
+  (* the mint builder hands its witness scripts over in the order of ITS map: the policy order of the modelled builder state *)
+  let mint_native = match mint_ops with
+    | None -> []
+    | Some ops -> List.concat (List.map (fun (pol, _) ->
+        match List.filter (fun (_, _, p, src, _, _, _, _) -> p = pol && src = "w") mint_live with
+        | (_, sb, _, _, _, _, _, _) :: _ -> [sb] | [] -> []) (mb_run ops)) in
+  let native = input_script_order (List.concat (List.map (fun (sb, src, _, _, _) -> if src = "w" then [sb] else []) si)) @ mint_native @ nc @ nw in
   let mint_plutus = List.concat (List.map (fun (_, sb, _, src, _, _, _, _) ->
       if String.length src = 2 && src.[0] = 'p' then [ { ps_lang = n_of_string (String.sub src 1 1); ps_bytes = sb } ] else []) mint_live) in
   let plutus = List.map (fun (s, _, _) -> s) pi @ mint_plutus @ List.map fst pc @ List.map fst pw in
   let wit_datums = List.concat (List.map (fun (_, d, _) -> d) pi) @ List.concat (List.map snd pc) @ List.concat (List.map snd pw) in
   let all_inputs = ins @ List.map (fun (_, _, inp, _, _) -> inp) si @ List.map (fun (_, _, inp) -> inp) pi in
-  let mint_ops = match mint_raw with
-    | None -> None
-    | Some raw -> Some (List.map (fun (k, _, p, _, _, _, nm, a) -> if k = "a" then MbAdd (p, nm, a) else MbSet (p, nm, a)) raw) in
   let case = { t_inputs = all_inputs; t_collateral = coll; t_dedup_flag = flag; t_script_refs = script_refs;
                t_explicit_refs = re; t_signers = signers; t_mint = mint_ops; t_native = native;
                t_plutus = plutus; t_wit_datums = wit_datums; t_extra_datums = xd } in
@@ -202,7 +209,7 @@ let run_tx (c : cur) (impl : string list) : string * string =
   let m = match tx_build case with
     | Ok o -> Printf.sprintf "ok ins=%s coll=%s refs=%s sig=%s mint=%s ns=%s ps=%s pd=%s det=1"
                 (show_txins o.x_inputs) (show_txins o.x_collateral) (show_txins o.x_refs) (hexs o.x_signers)
-                (match o.x_mint with Some b -> hex_of_bytes b | None -> "~") (sorted_hex o.x_native)
+                (match o.x_mint with Some b -> hex_of_bytes b | None -> "~") (hexs o.x_native)
                 (if o.x_plutus = [] then "-" else String.concat ";" (List.map (fun (k, els) -> string_of_n k ^ ":" ^ sorted_hex els) o.x_plutus))
                 (sorted_hex o.x_data)
     | _ -> "err" in
